@@ -59,6 +59,26 @@ MUT={
  'c03-m8-failure-element-ignored-by-client': ('C03', lambda: sub('sasl.go','''		return nil, false, fail
 	default:''','''		return nil, true, nil
 	default:''')),
+ 'c03-m9-plus-offer-counts-as-bare': ('C03', lambda: (sub('sasl.go','''			if name == m.Name {
+				selected = m
+				break selectmechanism''','''			if name == m.Name || strings.TrimSuffix(name, "-PLUS") == m.Name {
+				selected = m
+				break selectmechanism'''), sub('sasl.go','''	"io"
+''','''	"io"
+	"strings"
+'''))),
+ 'c03-m10-case-insensitive-mechanism-names': ('C03', lambda: (sub('sasl.go','''				if selection.Name == m.Name {''','''				if strings.EqualFold(selection.Name, m.Name) {'''), sub('sasl.go','''	"io"
+''','''	"io"
+	"strings"
+'''))),
+ 'c03-m11-auth-flush-error-dropped': ('C03', lambda: sub('sasl.go','''	err = w.Flush()
+	if err != nil {
+		return mask, nil, err
+	}
+
+	r := session.TokenReader()''','''	_ = w.Flush()
+
+	r := session.TokenReader()''')),
  'c03-h1-harmless-encode-to-string': ('C03', lambda: sub('sasl.go','''		var encodedResp []byte
 		if len(resp) == 0 {
 			encodedResp = []byte{'='}
@@ -107,9 +127,7 @@ MUT={
 				return stream.UnsupportedVersion''','''			case in.Version.Major != stream.DefaultVersion.Major:
 				return stream.UnsupportedVersion''')),
  'c12-m3-id-required-of-wrong-role': ('C12', lambda: sub('internal/stream/stream.go','if !recv && in.ID == "" {','if recv && in.ID == "" {')),
- 'c12-m4-origin-change-accepted': ('C12', lambda: sub('negotiator.go','''				case !origin.Equal(s.in.Info.From):
-					return mask, nil, nState, fmt.Errorf("xmpp: stream origin %s does not match previously set origin %s", s.in.Info.From, origin)''','''				case !origin.Domain().Equal(s.in.Info.From.Domain()):
-					return mask, nil, nState, fmt.Errorf("xmpp: stream origin %s does not match previously set origin %s", s.in.Info.From, origin)''')),
+ 'c12-m4-origin-change-accepted': ('C12', lambda: sub('negotiator.go','''				case !origin.Equal(newIn.From):''','''				case !origin.Domain().Equal(newIn.From.Domain()):''')),
  'c12-m5-bind-wrong-id-accepted': ('C12', lambda: sub('bind.go','''			case resp.ID != reqID:
 				return mask, nil, stream.UndefinedCondition
 ''','''			case resp.ID != reqID && resp.ID != "":
@@ -124,16 +142,39 @@ MUT={
 			if err := (&i.From).UnmarshalXMLAttr(attr); err != nil {''','''		case xml.Name{Space: "", Local: "from"}:
 			if err := (&i.To).UnmarshalXMLAttr(attr); err != nil {'''))),
  'c12-m8-bind-always-sends-resource': ('C12', lambda: sub('bind.go','	if bp.Resource != "" {\n		return xmlstream.Wrap(','	if bp.Resource != "" || bp.JID.String() == "" {\n		return xmlstream.Wrap(')),
- 'c12-m9-stream-error-not-decoded': ('C12', lambda: sub('internal/stream/stream.go','d = negotiateReader(xml.NewTokenDecoder(decl.Skip(d)), ws)','d = negotiateReader(decl.Skip(d), ws)')),
- 'c12-m10-location-learned-after-known': ('C12', lambda: sub('negotiator.go','''				case !location.Equal(s.in.Info.To):
-					return mask, nil, nState, fmt.Errorf("xmpp: stream location %s does not match previously set location %s", s.in.Info.To, location)
+ 'c12-m9-stream-error-not-decoded': ('C12', lambda: sub('internal/stream/reader.go','''			d := xml.NewTokenDecoder(xmlstream.MultiReader(
+				xmlstream.Token(t),
+				xmlstream.InnerElement(r.r),
+			))
+			err = d.Decode(&e)''','''			_ = xmlstream.Token
+			err = xml.NewTokenDecoder(r.r).DecodeElement(&e, &t)''')),
+ 'c12-m10-location-learned-after-known': ('C12', lambda: sub('negotiator.go','''				case !location.Equal(newIn.To):''','''				case !location.Equal(newIn.To) && s.state&S2S == S2S:''')),
+ 'c12-m11-refused-header-committed': ('C12', lambda: (sub('negotiator.go','''				newIn := *in
+				err = intstream.Expect(ctx, &newIn, s.in.d, s.State()&Received == Received, websocket)
+				if err != nil {
+					nState.doRestart = false
+					return mask, nil, nState, err
 				}
 
-				location = in.To''','''				case !location.Equal(s.in.Info.To) && s.state&S2S == S2S:
-					return mask, nil, nState, fmt.Errorf("xmpp: stream location %s does not match previously set location %s", s.in.Info.To, location)
+				switch {
+				case !location.Equal(newIn.From):''','''				newIn := *in
+				err = intstream.Expect(ctx, &newIn, s.in.d, s.State()&Received == Received, websocket)
+				*in = newIn
+				if err != nil {
+					nState.doRestart = false
+					return mask, nil, nState, err
 				}
 
-				location = in.To''')),
+				switch {
+				case !location.Equal(newIn.From):'''))),
+ 'c12-m12-bind-reply-not-addressed-back': ('C12', lambda: sub('bind.go','''						From:    resReq.IQ.To,
+						To:      resReq.IQ.From,''','''						From:    resReq.IQ.From,
+						To:      resReq.IQ.To,''')),
+ 'c12-m13-tee-out-misses-header': ('C12', lambda: sub('negotiator.go','''				err = intstream.Send(s.Conn(), out, websocket, stream.DefaultVersion, cfg.Lang, location.String(), origin.String(), "")''','''				var hdrConn io.ReadWriter = s.Conn()
+				if tc, ok := hdrConn.(teeConn); ok {
+					hdrConn = tc.Conn
+				}
+				err = intstream.Send(hdrConn, out, websocket, stream.DefaultVersion, cfg.Lang, location.String(), origin.String(), "")''')),
  'c12-h1-harmless-double-quotes': ('C12', lambda: (sub('internal/stream/stream.go','''b.WriteString(" " + attr.name + "='")''','''b.WriteString(" " + attr.name + "=\\"")'''), sub('internal/stream/stream.go','''		_, err = b.WriteString("'")
 		if err != nil {
 			return err
